@@ -3,6 +3,7 @@ package main
 // Symbolic execution of one SSA function into block-predicate verification conditions.
 
 import (
+	"path"
 	"fmt"
 	"go/constant"
 	"go/token"
@@ -144,7 +145,12 @@ func (c *Ctx) fnName() string {
 		return c.con.Name
 	}
 	if c.fn.Pkg == nil {
-		return c.fn.String()
+		// instantiation of a generic function (or a closure of one): short qualified name
+		n := shortenQualified(c.fn.RelString(nil))
+		if tp := fnTypesPkg(c.fn); tp != nil {
+			n = strings.TrimPrefix(n, path.Base(tp.Path())+".")
+		}
+		return n
 	}
 	return c.fn.RelString(fnTypesPkg(c.fn))
 }
